@@ -52,7 +52,6 @@ import (
 	"context"
 	"fmt"
 	"io"
-	"os"
 	"sort"
 	"strings"
 	"testing"
@@ -798,32 +797,7 @@ func run(t *testing.T, tape *simrt.Tape) *common.Outcome {
 		o.Fault("rcmgr-SetProtocol-refused")
 	}
 	check(w)
-	downgradeKnown(o)
 	return o
-}
-
-// privateKnown: genuine violations of the statement by the unchanged tree that were reported to the lead
-// and are not (yet) listed in /verif/known_findings.json. They are counted as probes "known-finding:<class>"
-// instead of violations unless C07_STRICT is set (replay files under harness/c07/known/ need C07_STRICT=1).
-// Delete an entry once the defect is fixed in /repo or the class is listed in known_findings.json.
-var privateKnown = map[string]string{
-	"C07/stream-not-bound/eager/blank-dialer/refusal-injected":      "blank.go NewStream drops the error of s.SetProtocol(selected)",
-	"C07/handler-on-unbound-stream/blank-listener/refusal-injected": "blank.go newStreamHandler drops the error of s.SetProtocol(protoID) and dispatches",
-}
-
-func downgradeKnown(o *common.Outcome) {
-	if os.Getenv("C07_STRICT") != "" {
-		return
-	}
-	var keep []common.Violation
-	for _, v := range o.Violations {
-		if _, ok := privateKnown[v.Class]; ok {
-			o.Probe("known-finding:" + v.Class)
-			continue
-		}
-		keep = append(keep, v)
-	}
-	o.Violations = keep
 }
 
 func firstLines(s string, n int) string {
